@@ -10,6 +10,9 @@ import (
 	"verifharness/mon"
 	"verifharness/ref"
 	"verifharness/world"
+
+	pb "github.com/google/go-tdx-guest/proto/tdx"
+	"google.golang.org/protobuf/proto"
 )
 
 func init() { Registry["C01"] = c01 }
@@ -320,6 +323,53 @@ func c01(x *mon.Ctx) {
 			})
 		}
 	}
+
+	// ---- (a') message-level mutants: a caller-built QuoteV4 message carries 32-bit numbers where the wire format has 16 bits.
+	//      Any message that is not exactly the genuine quote's decomposition must be rejected, in particular one whose
+	//      numeric fields differ from the genuine ones only in bits 16..31 (which a truncating serialiser would drop).
+	for _, s := range srcs {
+		base := mon.MessageFor("built", s.c.Quote)
+		if base == nil {
+			continue
+		}
+		type num struct {
+			name string
+			set  func(m *pb.QuoteV4, bit uint)
+		}
+		qr := func(m *pb.QuoteV4) *pb.EnclaveReport {
+			return m.SignedData.CertificationData.QeReportCertificationData.QeReport
+		}
+		nums := []num{
+			{"header.version", func(m *pb.QuoteV4, b uint) { m.Header.Version ^= 1 << b }},
+			{"header.attestation_key_type", func(m *pb.QuoteV4, b uint) { m.Header.AttestationKeyType ^= 1 << b }},
+			{"header.tee_type", func(m *pb.QuoteV4, b uint) { m.Header.TeeType ^= 1 << b }},
+			{"qe_report.isv_svn", func(m *pb.QuoteV4, b uint) { qr(m).IsvSvn ^= 1 << b }},
+			{"qe_report.isv_prod_id", func(m *pb.QuoteV4, b uint) { qr(m).IsvProdId ^= 1 << b }},
+			{"qe_report.misc_select", func(m *pb.QuoteV4, b uint) { qr(m).MiscSelect ^= 1 << b }},
+			{"certification_data.type", func(m *pb.QuoteV4, b uint) { m.SignedData.CertificationData.CertificateDataType ^= 1 << b }},
+			{"qe_auth_data.parsed_data_size", func(m *pb.QuoteV4, b uint) {
+				m.SignedData.CertificationData.QeReportCertificationData.QeAuthData.ParsedDataSize ^= 1 << b
+			}},
+			{"pck_chain.type", func(m *pb.QuoteV4, b uint) {
+				m.SignedData.CertificationData.QeReportCertificationData.PckCertificateChainData.CertificateDataType ^= 1 << b
+			}},
+		}
+		for _, n := range nums {
+			for bit := uint(0); bit < 32; bit++ {
+				m := proto.Clone(base).(*pb.QuoteV4)
+				n.set(m, bit)
+				wire, err := proto.Marshal(m)
+				if err != nil {
+					continue
+				}
+				c := *s.c
+				c.Msg = wire
+				c.Class, c.Param, c.Expect, c.Twin = "message-numeric-bitflip", fmt.Sprintf("%s/%s/bit%d", s.name, n.name, bit), "reject", "bitflip-source"
+				check(x, int(bit), &c)
+			}
+		}
+	}
+	x.Require("message-numeric-bitflip", 0, 4*9*32, 4*9*32)
 
 	// ---- (c) random multi-byte mutants, reference decides
 	nm := x.Pick(3000, 200000)
